@@ -170,9 +170,13 @@ def run(ctx):
     pick = [p for p in progs if "/block/" in p["tag"] and p["tag"].startswith("d2")][:1] + progs[:1]
     samples = [dict(tag=p["tag"], source=res[p["id"]].get("src"), spec_fault=vecs[p["id"]]["res"],
                     real_chain=res[p["id"]].get("chain")) for p in pick] + [dict(syntax_vector=pv[0])]
+    # ---- faults raised while a module is being IMPORTED (module level: ZnModuleFault, shared with C15): the report names the faulting line,
+    # then every module that waits in one of its import statements with that statement's line, the main file last
+    import c15
+    nimp = len(c15.import_fault_family(ctx, znh, rnd))
     cov = dict(traces_validated_against_impl=stats["programs"] - stats["skipped"] + nsyn, samples=samples,
                evaluations=stats["programs"] + nsyn, distinct_nontrivial=len(set(p["tag"] for p in progs)) + len(pv),
-               rule="runtime: fault kind {抛出, custom class, index, division by zero, undefined name} x call depth 0..3 x statement context x "
+               rule="IMPORT-TIME FAULTS (ZnModuleFault, shared with C15): 1500 (2517) runs in which the body of a module faults while it is being imported - the report = the faulting line + the load stack with the line of every waiting import statement. runtime: fault kind {抛出, custom class, index, division by zero, undefined name} x call depth 0..3 x statement context x "
                     "layout material before the fault {blank lines, // comment, /* */ block, 注：“…” block, mixture} x line ends {LF, CRLF, CR} x "
                     "history {none, an earlier handled exception + returned call}; the same with the call chain crossing one or two module-file boundaries (every chain entry compared as (file, line)) (quick: seeded 22%% sample of the matrix); expected fault line and "
                     "call chain = the ZnEval machine's frames at the fault. syntax: all texts <= 7 over {narrow, wide, LF, CR, bad} with one bad "
